@@ -54,6 +54,16 @@ CHECKS = {
             "at a C-call boundary is copied and loaded and must equal the previous or the new configuration.",
             "Crash model is process death at C-call boundaries (no torn writes, no power loss); file-system rename atomicity is trusted.",
             "5/C19"),
+    "C18": ("exploration",
+            "Hypothesis-generated stack shapes executed against a reference interpreter of data/event semantics; default "
+            "helpers enumerated over all flag combinations",
+            "Generated compositions (classes, instances, explicit and implicit parallel groups, both order conventions, "
+            "constructor and builder scripts) are checked for assembly order, interface lookup by class, data flow in both "
+            "directions and one event per case (any emitter incl. group members and the stack object, emit/broadcast, "
+            "detached or not) against a small reference interpreter; all 16+16+64 helper flag combinations are enumerated.",
+            "Trusts the reference interpreter (40 lines) and the recorder layers; sibling visibility of an emitting group "
+            "member is left unconstrained as the statement is silent.",
+            "5/C18"),
 }
 
 NOT_APPLICABLE = {
